@@ -114,26 +114,39 @@ def route_rows(rng, quick):
     from aldy.common import AldyException
 
     rows = []
-    names = ["toy", "cyp2d6", "cyp2a6", "gstm1"] + ([] if quick else ["cyp2c19", "g6pd", "tpmt", "ugt1a1"])
+    # the user route is independent of whether copy-number calling is available: genes with and without structural
+    # alleles, calling switched off the way genotype() does for exome profiles / VCF input, sample declared male
+    names = ["toy", "cyp2d6", "cyp2a6", "gstm1", "cyp2c19", "g6pd"] + ([] if quick else ["tpmt", "ugt1a1", "nat2", "cyp2c9"])
     for gname in names:
-        g = genes.load(gname)
-        cfgs = sorted(g.cn_configs)
-        lists = [[c] for c in cfgs] + [[a, b] for a in cfgs[:4] for b in cfgs[:4]] + [["1", "1", "1"], ["1", "nope"], ["zz"]]
-        for i, lst in enumerate(lists):
-            prof = _profile(cn_solution=lst)
-            out, err = None, ""
-            try:
-                out = estimate_cn(g, prof, None, "any")
-            except AldyException as ex:
-                err = "AldyException"
-            except Exception as ex:
-                err = type(ex).__name__
-            rows.append({
-                "id": f"user/{gname}/{i}", "route": "user", "given": lst, "known": cfgs, "err": err,
-                "n": len(out) if out is not None else 0,
-                "got": sorted(out[0].solution.elements()) if out else [], "score0": bool(out and out[0].score == 0),
-                "male": False, "sex": False, "defname": "1",
-            })
+        for mode in ("plain", "nocall", "male"):
+            g = genes.load(gname)
+            if mode == "plain" and not g.do_copy_number and gname not in ("cyp2c19", "g6pd"):
+                continue
+            if mode == "nocall":
+                if not g.do_copy_number:
+                    continue  # already off for this gene: "plain" covers it
+                g.do_copy_number = False
+            if mode == "male" and g.chr not in ("X", "Y") and gname != "toy":
+                continue
+            cfgs = sorted(g.cn_configs)
+            lists = [[c] for c in cfgs] + [[a, b] for a in cfgs[:4] for b in cfgs[:4]] + [["1", "1", "1"], ["1", "nope"], ["zz"]]
+            if mode != "plain" and quick:
+                lists = lists[:: max(1, len(lists) // 8)] + [["1", "1", "1"], ["1"], ["1", "nope"]]
+            for i, lst in enumerate(lists):
+                prof = _profile(cn_solution=lst, male=True) if mode == "male" else _profile(cn_solution=lst)
+                out, err = None, ""
+                try:
+                    out = estimate_cn(g, prof, None, "any")
+                except AldyException as ex:
+                    err = "AldyException"
+                except Exception as ex:
+                    err = type(ex).__name__
+                rows.append({
+                    "id": f"user/{gname}/{mode}/{i}", "route": "user", "given": lst, "known": cfgs, "err": err,
+                    "n": len(out) if out is not None else 0,
+                    "got": sorted(out[0].solution.elements()) if out else [], "score0": bool(out and out[0].score == 0),
+                    "male": mode == "male", "sex": g.chr in ("X", "Y"), "defname": "1",
+                })
     # default route: genes without structural alleles (do_copy_number False) and exome/VCF-like use
     for gname in genes.shipped_names() if not quick else ["cyp2c19", "g6pd", "tpmt", "nat2", "cyp2c9", "dpyd"][:5]:
         if gname == "dpyd" and quick:
